@@ -240,6 +240,10 @@ def remMain (lines : Array String) : IO Unit := do
       -- (`remove L H`) and then removes it through the remover: the remover's answer is what is reported
       let (w0, rest) := match rest with
         | ["rremoveheld", r, l, h] => ((Evp.Rem.step w (.remove (nat! l) (nat! h))).1, ["rremove", r, h])
+        -- the same event under an equivalent key: `rremove`; another event: nothing happens and false is reported
+        -- (as for a handle that was never issued), the remover stays responsible
+        | ["rremoveeq", r, h] => (w, ["rremove", r, h])
+        | ["rremoveother", r, _] => (w, ["rremove", r, "99999999"])
         | _ => (w, rest)
       w := w0
       match parseROp rest with
